@@ -43,6 +43,7 @@ func (c12) Gates(tier string, m map[string]int64) []rt.Gate {
 		rt.GateMin("value expressions using `key`", m, "value_uses_key", 200),
 		rt.GateMin("extra polls issued", m, "extra_polls", 1000),
 		rt.GateMin("follow-up selects", m, "followups", 500),
+		rt.GateMin("put/remove roundtrips over the same key expression (incl. float-valued ones)", m, "roundtrips", 100),
 	}
 }
 
@@ -115,7 +116,68 @@ func c12Render(v refeval.Val) (string, bool) {
 	return "", false
 }
 
+// roundtrip: `put (E, 'v')` followed by `remove E` must delete the very key
+// the put wrote, whatever the (undocumented) text rendering of E's value is.
+func (k c12) roundtrip(c *rt.Ctx) {
+	r := c.R
+	rec := c.Rec
+	exprs := []*gen.Node{
+		gen.Float("1.5"), gen.Float("2.0"), gen.Bin("+", gen.Float("1.0"), gen.Float("0.25")), gen.Bin("/", gen.Int(7), gen.Float("2.0")),
+		gen.Bin("*", gen.Int(3), gen.Float("0.5")), gen.Call("float", gen.Str("0.1")), gen.Bin("-", gen.Int(0), gen.Float("2.5")),
+		gen.Int(12), gen.Bin("+", gen.Str("k"), gen.Str("9")), gen.Call("upper", gen.Str("ab")), gen.Call("strlen", gen.Str("abc")), gen.Call("float", gen.Int(3)),
+		gen.Call("l2_distance", gen.Call("list", gen.Int(3)), gen.Call("list", gen.Int(0))),
+	}
+	e := exprs[r.Intn(len(exprs))]
+	prior := []refstore.Pair{{K: "a", V: "1"}, {K: "k9", V: "old"}, {K: "z", V: "2"}}
+	st := refstore.New(prior)
+	mode := drive.Mode{Batch: r.Bool(), Size: 3, Cache: true}
+	pq := "put (" + gen.Print(e) + ", 'roundtrip')"
+	po := drive.Run(pq, st, mode)
+	rec.Eval(1)
+	if po.Status() != "ok" {
+		rec.NotJudged("roundtrip put not accepted: " + po.Status())
+		return
+	}
+	var written string
+	n := 0
+	for _, ev := range st.Log() {
+		if ev.Op == refstore.OpPut {
+			written = ev.Key
+			n++
+		}
+	}
+	if n != 1 {
+		c.Violation("write-log", "put / roundtrip put did not issue exactly one Put", func() rt.D { return rt.D{"statement": pq, "storage_log": refstore.FormatLog(st.Log())} })
+		return
+	}
+	st.ResetLog()
+	rq := "remove " + gen.Print(e)
+	ro := drive.Run(rq, st, drive.Mode{Batch: r.Bool(), Size: 3, Cache: true})
+	rec.Eval(1)
+	rec.Inc("roundtrips")
+	rec.DistinctS(pq + rq)
+	if ro.Status() != "ok" {
+		c.Violation("valid-statement-failed", "remove / roundtrip remove fails", func() rt.D { return rt.D{"put": pq, "remove": rq, "outcome": outcomeBrief(ro)} })
+		return
+	}
+	want := []refstore.Pair{}
+	for _, p := range prior {
+		if p.K != written {
+			want = append(want, p)
+		}
+	}
+	if !st.Equal(want) {
+		c.Violation("put-remove-roundtrip", "remove E does not delete the key that put (E, v) wrote / "+gen.Shape(e), func() rt.D {
+			return rt.D{"put": pq, "remove": rq, "key_written_by_put": written, "storage_log_of_remove": refstore.FormatLog(st.Log()), "state": storeBrief(st.Pairs())}
+		})
+	}
+}
+
 func (k c12) Run(c *rt.Ctx) {
+	if c.Case%20 == 7 {
+		k.roundtrip(c)
+		return
+	}
 	r := c.R
 	rec := c.Rec
 	prior := gen.NewStore(r, []string{gen.FTiny, gen.FNum, gen.FWide, gen.FTies}[r.Intn(4)]).Pairs
